@@ -209,6 +209,10 @@ func (j *judge) inputOf(ev *event) (input, bool) {
 }
 
 func (j *judge) violation(key, what string, in input, ev *event) {
+	if strings.HasPrefix(key, "groups-dir-symlink-followed") {
+		j.run.Count("observed:"+key, 1) // operator-placed symlink in the groups directory: observed, not judged
+		return
+	}
 	j.nViol++
 	rep := in.replay(j.args.Index, j.args.GroupSymlinks)
 	rep["strace"] = ev.Line
@@ -540,14 +544,16 @@ func batchChild() {
 	for _, m := range diff.Modified {
 		key := "sentinel-modified"
 		if a.GroupSymlinks {
-			key = "groups-dir-symlink-followed:write"
+			run.Count("observed:groups-dir-symlink-followed:write", 1)
+			continue
 		}
 		run.Violation(key, "after the batch a file outside the roots differs from its state before: "+lay.rel(m), rep)
 	}
 	for _, c := range diff.Created {
 		key := "file-created-outside-roots"
 		if a.GroupSymlinks {
-			key = "groups-dir-symlink-followed:write"
+			run.Count("observed:groups-dir-symlink-followed:write", 1)
+			continue
 		}
 		run.Violation(key, "after the batch a new file exists outside the roots: "+lay.rel(c), rep)
 	}
